@@ -451,13 +451,15 @@ def collect_inputs_for_node(
     """
     from hypergraph.nodes.graph_node import GraphNode
 
-    # A mapping GraphNode broadcasts every non-mapped input to all of its items.
-    # Signature defaults of the inner graph must not travel that way: each item's
-    # run resolves (and deep-copies) them itself, exactly like runner.map does.
-    broadcast_defaults_skipped = isinstance(node, GraphNode) and node.map_config is not None
+    # Signature defaults of a nested graph are resolved (and deep-copied) by the
+    # nested run itself. Handing the outer copy down would turn it into a provided
+    # value, which a mapping GraphNode (at any depth below) broadcasts to all of
+    # its items instead of giving each item its own copy like runner.map does.
+    is_nested = isinstance(node, GraphNode)
+    mapped = node.map_config[0] if is_nested and node.map_config is not None else ()
     inputs = {}
     for param in node.inputs:
-        if broadcast_defaults_skipped and param not in node.map_config[0]:
+        if is_nested and param not in mapped:
             source, _ = get_value_source(param, node, graph, state, provided_values)
             if source == ValueSource.DEFAULT:
                 continue
